@@ -100,6 +100,19 @@ CHECKS["C14"] = dict(
          "down = PCut) are not separate actions yet. Bounds: 3 callers, one call each.",
     design_ref="DESIGN.md section 5 C14")
 
+CHECKS["C20"] = dict(
+    technique="TLA+ monitor WebAbs.tla (routes, .webc, websocket delivery) with generator Web.tla enumerated by TLC; TLC-generated "
+              "histories executed against the real .web server on loopback and the real websocket listen loop; recorded "
+              "histories validated by TLC (WebTrace.tla)",
+    text="Histories over route tables (subsets of 3 GET / 2 POST paths), requests (registered, unknown path, wrong method, raising "
+         "handler), parameter dictionaries with non-ASCII and URL-encoded characters, handler redefinition and .webc are "
+         "enumerated by TLC and run against a live server: exactly one handler call with exactly the request's parameters, body = "
+         "text of the result, 400 for a failing handler only, nothing for unregistered paths, refused after .webc. Websocket: "
+         "messages of every JSON kind reach .ws.m once, in order, intact; sent values arrive as their JSON encoding.",
+    note="Trusted: TLC, aiohttp, http.client, the scripted websocket object (the listen loop, JSON codec and dispatch are real). "
+         "A top-level JSON null message is not generated (None means 'missing argument' to Klong calls).",
+    design_ref="DESIGN.md section 5 C20")
+
 NOT_YET = {}
 
 
